@@ -46,6 +46,7 @@ type Contract struct {
 	LoopInv     map[int][]Clause
 	LoopMod     map[int][]ModLoc
 	Asserts     []CallAssert
+	Applies     []Apply
 	Ghosts      []CallAssert // ghost at <callee> name: expr  (value recorded after every matching call)
 	Trusted     string
 	NoPanic     bool // default true: safety obligations generated
@@ -54,8 +55,8 @@ type Contract struct {
 	Assumes     []Clause // assumed at entry but NOT required from callers (listed as assumptions)
 	Received    []Clause // assumed of every value received from a channel ($v)
 	Restricted  string   // restricted <reason>: the pre-conditions cut off part of the function; return sites proved unreachable are accepted as long as one return is reachable
+	DeadReturns []int    // dead return <n>: the n-th return statement (source order) must be unreachable for every input
 	Dead        []string // dead after <callee>: return sites behind a call of this callee must be unreachable under the pre-conditions
-	Lemmas      []LemmaUse
 	Inline      bool
 	Uses        []string
 	Missing     bool
@@ -98,11 +99,22 @@ type Pred struct {
 }
 
 type Axiom struct {
-	Pkg  string
-	Name string
-	Src  string
-	E    Expr
-	Vars []string
+	Pkg   string
+	Name  string
+	Src   string
+	E     Expr
+	Vars  []string
+	Lemma bool // lemma name(vars): expr - proved as an obligation of its own (over fresh constants) in every function that applies it
+}
+
+// Apply: apply at <callee>[#n] lemma(args) - the instance of a (proved) lemma for these argument values becomes a fact
+// before the matching call
+type Apply struct {
+	Callee string
+	Nth    int
+	Lemma  string
+	Args   []Expr
+	Src    string
 }
 
 type ContractSet struct {
@@ -174,7 +186,7 @@ func LoadContracts(cs *ContractSet, pkgPath, file string) error {
 		line int
 	}
 	var logical []ll
-	kw := regexp.MustCompile(`^(func|property|safety|requires|ensures|mustfail|assume|modifies|loop|trusted|assert|pred|implementers|axiom|lemma|fresh|pure|declare|inline|nopanic|uses|global|assumeframe|nonlinear|premise|fold|mapfold|ghost|received|dead|restricted)\b`)
+	kw := regexp.MustCompile(`^(func|property|safety|requires|ensures|mustfail|assume|modifies|loop|trusted|assert|pred|implementers|axiom|lemma|fresh|pure|declare|inline|nopanic|uses|global|assumeframe|nonlinear|premise|fold|mapfold|ghost|received|dead|restricted|apply)\b`)
 	for i, l := range lines {
 		t := strings.TrimSpace(l)
 		if !strings.HasPrefix(t, "//@") {
@@ -247,8 +259,9 @@ func LoadContracts(cs *ContractSet, pkgPath, file string) error {
 				}
 				cs.Uninterp[name] = n
 			}
-		case "axiom":
-			// axiom name(vars): expr
+		case "axiom", "lemma":
+			// axiom name(vars): expr      (assumed, listed)
+			// lemma name(vars): expr      (proved over fresh constants wherever it is applied)
 			m := regexp.MustCompile(`^([A-Za-z0-9_\-]+)\(([^)]*)\):\s*(.*)$`).FindStringSubmatch(rest)
 			if m == nil {
 				return fail(fmt.Errorf("bad axiom"))
@@ -264,7 +277,7 @@ func LoadContracts(cs *ContractSet, pkgPath, file string) error {
 					vs = append(vs, p)
 				}
 			}
-			cs.Axioms = append(cs.Axioms, &Axiom{Pkg: pkgPath, Name: m[1], Src: m[3], E: e, Vars: vs})
+			cs.Axioms = append(cs.Axioms, &Axiom{Pkg: pkgPath, Name: m[1], Src: m[3], E: e, Vars: vs, Lemma: word == "lemma"})
 		case "fold", "mapfold":
 			// fold name(params, i) := elem op mul|add|mulmod m [from init]
 			// mapfold name(params, k) := elem op mul|add [from init]   (product / sum over the keys of a map)
@@ -357,8 +370,16 @@ func LoadContracts(cs *ContractSet, pkgPath, file string) error {
 					cur.Restricted = "restricted by its pre-conditions"
 				}
 			case "dead":
-				// dead after <callee>
+				// dead after <callee>   |   dead return <n>  (the n-th return statement in source order, from 1)
 				f := strings.Fields(rest)
+				if len(f) == 2 && f[0] == "return" {
+					n, err := strconv.Atoi(f[1])
+					if err != nil || n < 1 {
+						return fail(fmt.Errorf("bad dead clause"))
+					}
+					cur.DeadReturns = append(cur.DeadReturns, n)
+					break
+				}
 				if len(f) != 2 || f[0] != "after" {
 					return fail(fmt.Errorf("bad dead clause"))
 				}
@@ -463,6 +484,25 @@ func LoadContracts(cs *ContractSet, pkgPath, file string) error {
 					n, _ = strconv.Atoi(m[2])
 				}
 				cur.Asserts = append(cur.Asserts, CallAssert{Callee: m[1], Nth: n, Cl: Clause{Label: m[3], Src: m[4], E: e, Line: l.line}})
+			case "apply":
+				// apply at <callee>[#n] lemma(args)
+				m := regexp.MustCompile(`^at\s+(\S+?)(?:\[#(\d+)\])?\s+([A-Za-z0-9_]+\(.*\))\s*$`).FindStringSubmatch(rest)
+				if m == nil {
+					return fail(fmt.Errorf("bad apply"))
+				}
+				e, err := ParseSpec(m[3])
+				if err != nil {
+					return fail(err)
+				}
+				ce, ok := e.(*ECall)
+				if !ok {
+					return fail(fmt.Errorf("bad apply"))
+				}
+				an := -1
+				if m[2] != "" {
+					an, _ = strconv.Atoi(m[2])
+				}
+				cur.Applies = append(cur.Applies, Apply{Callee: m[1], Nth: an, Lemma: ce.Fn, Args: ce.Args, Src: m[3]})
 			case "ghost":
 				// ghost at <callee> name: expr  - records the value of expr (over the call's arguments $0.. and
 				// its result $r / $r0, $r1) in a ghost variable after every matching call; read with ghost(name)
@@ -479,17 +519,6 @@ func LoadContracts(cs *ContractSet, pkgPath, file string) error {
 					gn, _ = strconv.Atoi(m[2])
 				}
 				cur.Ghosts = append(cur.Ghosts, CallAssert{Callee: m[1], Nth: gn, Cl: Clause{Label: m[3], Src: m[4], E: e, Line: l.line}})
-			case "lemma":
-				// lemma at <where>: name(args)
-				m := regexp.MustCompile(`^at\s+(.*?):\s+([A-Za-z0-9_]+)\((.*)\)$`).FindStringSubmatch(rest)
-				if m == nil {
-					return fail(fmt.Errorf("bad lemma"))
-				}
-				e, err := ParseSpec("f(" + m[3] + ")")
-				if err != nil {
-					return fail(err)
-				}
-				cur.Lemmas = append(cur.Lemmas, LemmaUse{At: m[1], Name: m[2], Args: e.(*ECall).Args, Src: rest})
 			default:
 				return fail(fmt.Errorf("unknown clause %q", word))
 			}
